@@ -1002,6 +1002,18 @@ impl<A: App> Pair<A> {
         client_app: A,
         make_server_app: Box<dyn FnMut(usize, ConnectionHandle) -> A + Send>,
     ) -> Self {
+        Self::new_pre(base, cfg, client_app, make_server_app, |_| {})
+    }
+
+    /// Like `new`, but `pre` configures the world (fates, masks, link) before the client's
+    /// first flight is emitted, so that emission #0 is subject to it as well.
+    pub fn new_pre(
+        base: Instant,
+        cfg: &PairCfg,
+        client_app: A,
+        make_server_app: Box<dyn FnMut(usize, ConnectionHandle) -> A + Send>,
+        pre: impl FnOnce(&mut World<A>),
+    ) -> Self {
         let mut w = World::new(base, make_server_app);
         w.latency = cfg.latency;
         w.max_datagrams = cfg.max_datagrams;
@@ -1014,6 +1026,7 @@ impl<A: App> Pair<A> {
             w.nodes[SERVER].policy = AcceptPolicy::Retry;
         }
         let cc = client_config(cfg, keylog.clone(), 0xc1);
+        pre(&mut w);
         let cch = w.connect(CLIENT, SERVER, cc.clone(), client_app);
         w.settle_conn(CLIENT, cch);
         Self { w, keylog, cch, client_cfg: cc }
